@@ -19,6 +19,7 @@ case "$LANE" in
   asan)   SAN="-fsanitize=address,undefined -fno-sanitize-recover=undefined -fno-omit-frame-pointer"; OPT="-O1 -g"; FWSAN="$SAN"; DEFS="";;
   assert) SAN="-fsanitize=address,undefined -fno-sanitize-recover=undefined -fno-omit-frame-pointer"; OPT="-O1 -g"; FWSAN="$SAN"; DEFS=""; NDEBUG="";;
   plain)  SAN=""; OPT="-O2 -g"; FWSAN=""; DEFS="";;
+  cov)    SAN="--coverage"; OPT="-O0 -g"; FWSAN=""; DEFS="-DSIM_COV";;
   tsan)   CXX=clang++; CC=clang; SAN="-fsanitize=thread"; OPT="-O1 -g"; FWSAN=""; DEFS="-DSIM_TSAN";;
   *) echo "unknown lane $LANE" >&2; exit 2;;
 esac
